@@ -6,22 +6,15 @@ namespace Qryn.LogQL
 open Qryn Qryn.Sql
 
 theorem supported_spec (q : MetricQuery) (h : supported q = true) :
-    (∃ fn, q.rangeAgg.kind = .lra fn) ∧ aggOk q ∧ 1000000 ∣ q.rangeAgg.durNs ∧ 0 < q.rangeAgg.durNs ∧
+    (∃ fn, q.rangeAgg.kind = .lra fn) ∧ aggOk q ∧ 0 < q.rangeAgg.durNs ∧
       q.rangeAgg.sel.matchers.length ≤ 63 := by
   unfold supported at h
   simp only [Bool.and_eq_true, decide_eq_true_eq] at h
-  obtain ⟨⟨⟨⟨h1, h2⟩, h3⟩, h4⟩, h5⟩ := h
-  refine ⟨?_, ?_, Nat.dvd_of_mod_eq_zero h3, h4, h5⟩
+  obtain ⟨⟨h1, h4⟩, h5⟩ := h
+  refine ⟨?_, trivial, h4, h5⟩
   · cases hk : q.rangeAgg.kind with
     | lra fn => exact ⟨fn, rfl⟩
     | unwrap fn l => rw [hk] at h1; cases h1
-  · unfold aggOk
-    cases ha : q.agg? with
-    | none => trivial
-    | some a =>
-      rw [ha] at h2
-      simp only [Bool.and_eq_true, bne_iff_ne, ne_eq] at h2
-      exact ⟨h2.1.1, h2.1.2, h2.2⟩
 
 /-- what the shortcut relies on: no negative timestamp, and the line filters it does not plan pass every stored line -/
 def ShortcutOk (o : Oracles) (d : LokiDb) (q : MetricQuery) : Prop :=
@@ -39,10 +32,10 @@ theorem shortcutOkB_spec (o : Oracles) (d : LokiDb) (q : MetricQuery) (h : short
 theorem planMetric_correct (o : Oracles) (c : MCtx) (hn : c.namesOk) (d : LokiDb) (q : MetricQuery)
     (hsup : supported q = true) (hsc : takesShortcut q = true → ShortcutOk o d q) :
     (evalSelA o (d.toDbM c) (planMetric c q)).map normRow = evalMetric o c d q := by
-  obtain ⟨⟨fn, hk⟩, hok, hms, hd, hm⟩ := supported_spec q hsup
+  obtain ⟨⟨fn, hk⟩, hok, hd, hm⟩ := supported_spec q hsup
   cases hs : takesShortcut q with
-  | false => exact planMetric_lra o c hn d q fn hk hs hok hm hms hd
-  | true => exact planMetric_shortcut o c hn d q hs hok hm hms (hsc hs).1 (hsc hs).2
+  | false => exact planMetric_lra o c hn d q fn hk hs hok hm hd
+  | true => exact planMetric_shortcut o c hn d q hs hok hm (hsc hs).1 (hsc hs).2
 
 /-! ### no entry outside the window contributes -/
 /-- two databases with the same index and series tables whose entries inside `[lo, hi)` are the same, in the same order -/
@@ -133,12 +126,12 @@ theorem regroupPt_groupedKL (o : Oracles) (c : Ctx) (d : LokiDb) (q : LogQuery) 
   | map m => exact Or.inl ⟨m, rfl, rfl⟩
   | _ => exact Or.inr ⟨rfl, rfl⟩
 
-theorem aggCore_kl (fn : AggFn) (pts : List Pt) : ∀ p ∈ aggCore fn pts, ∃ x ∈ pts, p.key = x.key ∧ p.labels = x.labels := by
+theorem aggCore_kl (fn : AggFn) (pts : List Pt) : ∀ p ∈ aggCore o fn pts, ∃ x ∈ pts, p.key = x.key ∧ p.labels = x.labels := by
   intro p hp
   unfold aggCore at hp
   obtain ⟨g, hg, hgp⟩ := List.mem_filterMap.mp hp
   obtain ⟨⟨a, rest, hgr, hk⟩, hall⟩ := groupsBy_head _ pts g hg
-  cases hv : aggVal fn (g.2.map (·.value)) with
+  cases hv : aggVal o fn (g.2.map (·.value)) with
   | none => rw [hv] at hgp; cases hgp
   | some v =>
     rw [hv] at hgp
@@ -149,12 +142,13 @@ theorem aggCore_kl (fn : AggFn) (pts : List Pt) : ∀ p ∈ aggCore fn pts, ∃ 
     · simp only [hgr, List.head?_cons, Option.map_some, Option.getD_some]
 
 theorem upperPts_grouped (o : Oracles) (c : MCtx) (d : LokiDb) (q : MetricQuery) (a : VecAgg) (g : Grouping)
-    (ha : q.agg? = some a) (hg : chosenGrouping a.byPrefix a.bySuffix = some g) (p0 : List Pt) :
+    (ha : q.agg? = some a) (hg : aggGrouping a = g) (p0 : List Pt) :
     ∀ p ∈ upperPts o c d q p0, GroupedKL o g p.key p.labels := by
   have h1 : ∀ p ∈ cmpStage a.cmp (aggStage o c.toCtx d q.rangeAgg.sel a p0), GroupedKL o g p.key p.labels := by
     apply cmpStage_labels
     intro p hp
-    rw [aggStage_eq, hg] at hp
+    rw [aggStage_eq] at hp
+    subst hg
     obtain ⟨x, hx, h1, h2⟩ := aggCore_kl _ _ p hp
     obtain ⟨y, _, rfl⟩ := List.mem_map.mp hx
     rw [h1, h2]
@@ -177,7 +171,7 @@ theorem groupedKL_ptLabels (o : Oracles) (c : Ctx) (d : LokiDb) (q : LogQuery) (
 /-- every row of the direct reading of a grouped vector aggregation (also under topk, comparison, step re-bucketing)
     carries the labels the grouping keeps of some label set and cityHash64 of exactly those as fingerprint -/
 theorem evalMetric_grouped (o : Oracles) (c : MCtx) (d : LokiDb) (q : MetricQuery) (a : VecAgg) (g : Grouping)
-    (ha : q.agg? = some a) (hg : chosenGrouping a.byPrefix a.bySuffix = some g) :
+    (ha : q.agg? = some a) (hg : aggGrouping a = g) :
     ∀ r ∈ evalMetric o c d q, GroupedKL o g (r.get "fingerprint") (r.get "labels") := by
   intro r hr
   rw [evalMetric_matrixPts, matrixPts_eq] at hr
@@ -194,7 +188,7 @@ theorem evalMetric_grouped (o : Oracles) (c : MCtx) (d : LokiDb) (q : MetricQuer
     their kept label sets hash alike (iff they are equal, where cityHash64 separates them). -/
 theorem output_series_grouped (o : Oracles) (c : MCtx) (hn : c.namesOk) (d : LokiDb) (q : MetricQuery) (a : VecAgg)
     (g : Grouping) (hsup : supported q = true) (hsc : takesShortcut q = true → ShortcutOk o d q)
-    (ha : q.agg? = some a) (hg : chosenGrouping a.byPrefix a.bySuffix = some g) :
+    (ha : q.agg? = some a) (hg : aggGrouping a = g) :
     ∀ r ∈ evalSelA o (d.toDbM c) (planMetric c q), GroupedKL o g (r.get "fingerprint") (r.get "labels") := by
   intro r hr
   have hmem : normRow r ∈ evalMetric o c d q := by
@@ -202,5 +196,30 @@ theorem output_series_grouped (o : Oracles) (c : MCtx) (hn : c.namesOk) (d : Lok
     exact List.mem_map_of_mem hr
   have := evalMetric_grouped o c d q a g ha hg _ hmem
   rwa [normRow_get _ _ (by decide), normRow_get _ _ (by decide)] at this
+
+
+theorem aggGrouping_of_some (a : VecAgg) (g : Grouping) (h : chosenGrouping a.byPrefix a.bySuffix = some g) : aggGrouping a = g := by
+  unfold aggGrouping; rw [h]; rfl
+
+theorem aggGrouping_of_none (a : VecAgg) (h : chosenGrouping a.byPrefix a.bySuffix = none) : aggGrouping a = ⟨true, []⟩ := by
+  unfold aggGrouping; rw [h]; rfl
+
+theorem keptLabels_by_nil (m : List (Bytes × Bytes)) : keptLabels ⟨true, []⟩ m = [] := by
+  unfold keptLabels groupingKeys
+  simp
+
+/-- **a vector aggregation without grouping clause merges all series into the one of the empty label set.** -/
+theorem ungrouped_one_series (o : Oracles) (c : MCtx) (hn : c.namesOk) (d : LokiDb) (q : MetricQuery) (a : VecAgg)
+    (hsup : supported q = true) (hsc : takesShortcut q = true → ShortcutOk o d q)
+    (ha : q.agg? = some a) (hnone : chosenGrouping a.byPrefix a.bySuffix = none) :
+    ∀ r ∈ evalSelA o (d.toDbM c) (planMetric c q),
+      (r.get "labels" = .map [] ∧ r.get "fingerprint" = .int (o.cityHash [])) ∨
+      (r.get "fingerprint" = .null ∧ r.get "labels" = .null) := by
+  intro r hr
+  have := output_series_grouped o c hn d q a ⟨true, []⟩ hsup hsc ha (aggGrouping_of_none a hnone) r hr
+  rcases this with ⟨m, h1, h2⟩ | h
+  · rw [keptLabels_by_nil] at h1 h2
+    exact Or.inl ⟨h1, h2⟩
+  · exact Or.inr h
 
 end Qryn.LogQL
